@@ -101,8 +101,8 @@ func Start(prop string) *R {
 	return r
 }
 
-func (r *R) Thorough() bool   { return r.Tier == "thorough" }
-func (r *R) Replaying() bool  { return r.replayCase != "" }
+func (r *R) Thorough() bool     { return r.Tier == "thorough" }
+func (r *R) Replaying() bool    { return r.replayCase != "" }
 func (r *R) ReplayCase() string { return r.replayCase }
 
 // Pick returns q in the quick tier and t in the thorough tier.
